@@ -11,6 +11,8 @@ import Oracle.Util
    op   ::= = | != | < | <= | > | >=
    lit  ::= n:<number text> | s:<hex bytes> | b:0 | b:1 | nil
    text ::= [+-]? (digits [. digits*] | . digits) ([eE] [+-]? digits)?    at most 40 mantissa digits, |exp| ≤ 40
+   a stored string s:<hex> that has the shape of `text` must keep the same limits (else bad-op): the engine compares
+   it as the float64 it reads as
 -/
 namespace Oracle.C02K
 open SigModel.Tlv SigModel.Cmp Oracle
@@ -65,6 +67,12 @@ def parseText (s : String) : Option NumText :=
     let intOk : Option Int := if plainInt && decide (-two63 ≤ iv) && decide (iv < two63) then some iv else none
     some { neg := neg, uintOk := uintOk, intOk := intOk, val := val }
 
+/-- a stored string in number syntax stays within the limits of `text` (no float64 overflow, bounded powers) -/
+def strInDomain (b : Bytes) : Bool :=
+  match numShape? b with
+  | none => true
+  | some n => decide (n.ip.length + n.fp.length ≤ 40) && decide (n.eds.length ≤ 3) && decide (digitsVal n.eds ≤ 40)
+
 def hex64? (s : String) : Option Nat := if s.length = 16 then hexNat? s else none
 
 /-- bit pattern of a rational that is a finite binary64 value -/
@@ -96,7 +104,7 @@ def parseRec (s : String) : Option (Option SVal × Bytes) :=
     | some b => if finiteBits b then some (some (.float b), (SVal.float b).enc) else none
     | none => none
   | "s:" => match hexBytes? rest with
-    | some b => if b.length < 65536 then some (some (.str b), (SVal.str b).enc) else none
+    | some b => if b.length < 65536 && strInDomain b then some (some (.str b), (SVal.str b).enc) else none
     | none => none
   | "b:" => if rest = "0" then some (some (.bool false), (SVal.bool false).enc)
             else if rest = "1" then some (some (.bool true), (SVal.bool true).enc) else none
